@@ -15,7 +15,8 @@ CONSTANTS
   DEV_CreateNoDefer,  \* TRUE: create unlocks manually on each return path, so a panic leaves the lock held
   Eps, Supis, Nfcis, Plmns, Pdus, Usages, Trigs, Rparams, Priors, Notifys,
   Ctls,   \* control members of the request: "plain"; "retx" = retransmissionIndicator set; "isn0" / "isnabs" = invocation
-          \* sequence number 0 / absent; "retx0" / "retxabs" = both
+          \* sequence number 0 / absent; "retx0" / "retxabs" = both; "emptyarr" = every optional array member present as [];
+          \* "nulls" = optional members present as null
   Bulks,  \* "none" | "many": the usage entry carries more than a thousand containers (a body well beyond 64 KiB)
   EmitOneIn
 
@@ -69,7 +70,8 @@ Init == /\ shape \in Shapes
         /\ phase = "prior" /\ locked = FALSE /\ known = FALSE
         /\ out = [class |-> "", leaks |-> FALSE] /\ fol = ""
 Prior == /\ phase = "prior"
-         /\ known' = (shape.prior \in {"created", "debit", "nearfull", "evcreated"} /\ ImsiLike(shape))   \* "nearfull": a session whose record is almost full
+         /\ known' = (shape.prior \in {"created", "debit", "nearfull", "evcreated", "createdpdu"} /\ ImsiLike(shape))   \* "nearfull": a session whose record is almost full;
+                      \* "createdpdu": the open session was created with the same PDU session information the probed create carries (a repeated initial request)
          /\ phase' = "probe" /\ UNCHANGED <<shape, locked, out, fol>>
 Probe == /\ phase = "probe"
          /\ out' = Outcome(shape, known)
